@@ -18,7 +18,7 @@ def isnumber(value: str, max_len: typing.Union[int, None] = None) -> bool:
     if max_len and len(value) > max_len:
         return False
     if value.count('.') == 1:
-        value = value.replace('.','0')
+        value = value.replace('.','')
     return value.isnumeric()
 def n0isnumeric(value: str) -> bool:
     return isnumber(value, 12)
